@@ -107,7 +107,8 @@ func H_C17_Step() {
 	_, known1 := m.entries[k1]
 	_, known2 := m.entries[k2]
 	wasKnown := (evSki == k1 && n >= 1) || (evSki == k2 && n >= 2)
-	reports := zzvrt.NumParked("ReportMdnsEntries")
+	zzvrt.RunSpawned("") // run whatever goroutine the event spawned (the asynchronous report)
+	reports := rep.reports
 	var want1, want2 []net.IP = pre1, pre2
 	exp1, exp2 := n >= 1, n >= 2
 	expNew := false
